@@ -55,7 +55,9 @@ def incrby : Body := fun _ args cis =>
   | _ => .error "model: bad args"
 def decrby : Body := fun _ args cis =>
   match args with
-  | [.key k, .int a] => incrbyCore cis k (-a)
+  | [.key k, .int a] =>
+    -- the smallest 64-bit integer cannot be negated
+    if a == -9223372036854775808 then .error Msgs.DECR_OVERFLOW_MSG else incrbyCore cis k (-a)
   | _ => .error "model: bad args"
 def incr : Body := fun _ args cis =>
   match args with
